@@ -11,8 +11,10 @@ package simrt
 import (
 	"fmt"
 	"hash/fnv"
+	"os"
 	"runtime/debug"
 	"sort"
+	"strconv"
 	"strings"
 	"sync"
 	"sync/atomic"
@@ -43,6 +45,7 @@ func IsKilled(v any) bool { _, ok := v.(killedT); return ok }
 
 // Task is one simulated thread of control.
 type Task struct {
+	declined int // consecutive yields declined without parking
 	ID    int64
 	Name  string
 	Node  int
@@ -90,6 +93,7 @@ type Config struct {
 	TraceSteps bool          // log every scheduling step (with Verbose)
 	Profile    bool          // count parks by reason into Counters
 	NoPreempt  bool          // never preempt at lock yields (operation-granularity scheduling)
+	MapSeed    uint64        // non-zero: ranges over maps visit the keys in a permutation derived from this value (0: ascending)
 }
 
 // Sim is one simulated execution.
@@ -105,6 +109,7 @@ type Sim struct {
 	killedF        atomic.Bool
 	Dec            *Decider
 	cfg            Config
+	mapRanges      uint64
 	Steps          int
 	Preempt        int // steps at which a different task than the previous one was chosen although it was runnable
 	StepLimitHit   bool
@@ -139,6 +144,9 @@ type Sim struct {
 }
 
 var active atomic.Pointer[Sim]
+
+// progressEvery (VERIF_PROGRESS=n) prints a line to stderr every n scheduling steps: a debugging aid.
+var progressEvery = func() int { n, _ := strconv.Atoi(os.Getenv("VERIF_PROGRESS")); return n }()
 
 // Active returns the running simulation or nil.
 func Active() *Sim { return active.Load() }
@@ -389,12 +397,16 @@ func (t *Task) yield(why string) {
 	if t.quiet > 0 {
 		return
 	}
-	if s.cfg.StickyPct > 0 && !s.stopReq.Load() {
+	if s.cfg.StickyPct > 0 && !s.stopReq.Load() && t.declined < 256 {
 		// local decline: keep running without a hand-off (one draw, no park)
 		if s.Dec.Choose(100) < s.cfg.StickyPct {
+			// (bounded: a task that spins through yields at one simulated instant, e.g. on a
+			// zero-length timer, must reach the driver so that the clock can be advanced)
+			t.declined++
 			return
 		}
 	}
+	t.declined = 0
 	t.parkAs(stParked, why)
 }
 
@@ -930,6 +942,9 @@ func (s *Sim) Run(main func()) {
 			continue
 		}
 		s.Steps++
+		if progressEvery > 0 && s.Steps%progressEvery == 0 {
+			fmt.Fprintf(os.Stderr, "simrt: step %d now=%v idles=%d forced=%d tasks=%d candidates=%d\n", s.Steps, s.Now(), s.Idles, s.ForcedAdvances, s.nextID, len(cs))
+		}
 		if s.Steps > s.cfg.MaxSteps {
 			s.StepLimitHit = true
 			return
